@@ -708,6 +708,9 @@ DICT_METHODS = {
 
 
 def method_of(eng, v, name):
+    for (cls, nm), mdl in EXTRA_METHODS.items():
+        if nm == name and isinstance(v, cls):
+            return NativeMethod(mdl, v, name)
     if isinstance(v, (PList, DictListRef)):
         if name in LIST_METHODS:
             return NativeMethod(LIST_METHODS[name], v, name)
@@ -1151,9 +1154,19 @@ except Exception:  # pragma: no cover
     pass
 
 
+# Extension points for contract modules (contracts/Cxx.py may register models at import time):
+#   EXTRA_MODELS[real_function_object] = model(eng, args, kwargs)
+#   EXTRA_METHODS[(ValueClass, "method_name")] = model(eng, recv, args, kwargs)     (SArr / NArr / PList / PDict ...)
+# Each such model must record what it assumes with eng.assumptions.add("...") so that evidence lists it.
+EXTRA_MODELS = {}
+EXTRA_METHODS = {}
+
+
 def lookup_model(fn):
     try:
-        m = BUILTIN_MODELS.get(fn)
+        m = EXTRA_MODELS.get(fn)
+        if m is None:
+            m = BUILTIN_MODELS.get(fn)
     except TypeError:
         m = None
     if m is not None:
